@@ -9,7 +9,7 @@
     No proofs in this file. *)
 From Coq Require Import List Bool Arith ZArith.
 Import ListNotations.
-Open Scope Z_scope.
+Local Open Scope Z_scope.
 
 (** * Identifiers *)
 
@@ -257,15 +257,19 @@ Definition exec (s : st) (o : op) : option st :=
       bank_send s caller to d x
   | Erc20Transfer caller t to x =>
       _ <- guard (negb (Nat.eqb caller Module)) ;;
-      b <- tk s t ;;
-      if tb_heavy b then None
-      else if tb_false b then Some s
-      else erc_transfer s b t caller to x
+      match tk s t with
+      | None => Some s              (* a call to an address without code succeeds and does nothing *)
+      | Some b =>
+          if tb_heavy b then None
+          else if tb_false b then Some s
+          else erc_transfer s b t caller to x
+      end
   | Erc20Burn caller t x =>
       _ <- guard (negb (Nat.eqb caller Module)) ;;
-      b <- tk s t ;;
-      _ <- guard (tb_burn b) ;;
-      erc_burn s t caller x
+      match tk s t with
+      | None => Some s
+      | Some b => _ <- guard (tb_burn b) ;; erc_burn s t caller x
+      end
   | Framed _ _ => None
   end.
 
